@@ -594,6 +594,28 @@ func (vc *VC) specCall(env *SpecEnv, e *SCall) Val {
 				sub.st = env.pre
 			}
 			return vc.specEval(&sub, e.Args[0])
+		case "as":
+			// as(x, "*pkg/path.Type"): the interface value x viewed as a value of that dynamic type
+			// (meaningful where typeis(x, "*pkg/path.Type") holds); gives access to its fields
+			x := vc.specEval(env, e.Args[0])
+			if lit, ok := e.Args[1].(*SLit); ok {
+				ts := normKey(lit.Val)
+				ptr := strings.HasPrefix(ts, "*")
+				ts = strings.TrimPrefix(ts, "*")
+				if i := strings.LastIndex(ts, "."); i > 0 {
+					if pk := vc.prog.Pkgs[ts[:i]]; pk != nil {
+						if o := pk.Types.Scope().Lookup(ts[i+1:]); o != nil {
+							var t types.Type = o.Type()
+							if ptr {
+								t = types.NewPointer(t)
+							}
+							return Val{x.T, t}
+						}
+					}
+				}
+				vc.fail("spec: as(): type %s not found in the loaded packages", lit.Val)
+			}
+			return Val{x.T, nil}
 		case "fresh":
 			// fresh(x): the object x refers to (or the backing array of slice x) was allocated by
 			// this activation: no caller, callee-retained structure or other thread can reach it
@@ -639,7 +661,7 @@ func (vc *VC) specCall(env *SpecEnv, e *SCall) Val {
 		case "typeis":
 			// typeis(x, "T") : dynamic type tag check by Go type string
 			x := vc.specEval(env, e.Args[0])
-			ts := e.Args[1].(*SLit).Val
+			ts := normKey(e.Args[1].(*SLit).Val)
 			vc.ensureDyn()
 			tag, ok := typeTags[ts]
 			if !ok {
